@@ -204,7 +204,7 @@ pub fn run<P: Pat>(args: &Args) -> Value {
         }
         calls += evs.len() as u64 / 2;
         count_results(&evs, &mut counts);
-        evs.push((sh.stamp(), observe::<P>("end", &name, &config, false, panics)));
+        evs.push((sh.stamp(), observe::<P>("end", &name, &config, false, panics, &[])));
         panics_total += panics;
         write_events(&mut out, evs);
         util::cleanup_domain(&config);
